@@ -123,8 +123,9 @@ Trees are build by:
 It is assumed that all leaves are present. The tree will be corrupt when this is not the case.
 */
 func (t *tree) Load(leaves map[uint32][]byte) error {
-	// nothing to load
+	// nothing to load: the result is an empty tree, not whatever the tree contained before
 	if len(leaves) == 0 {
+		t.resetDefaults(t.leafSize)
 		return nil
 	}
 
